@@ -163,8 +163,30 @@ def run(tier, seed):
             out["violations"].append(dict(sig="dec-arg-raw-integer", found=True, pid="C20",
                                           msg="`place-bid 3 batch-worth 1.5 100dn1` is rejected by the client: " + o4.strip()[-200:],
                                           ops=["# fundraisingd tx fundraising place-bid 3 batch-worth 1.5 100dn1 --from <addr> --generate-only --offline"]))
+        chain = None
+        if tier == "thorough":
+            # single-node chain from the binary: every command end to end, lifecycle through
+            # the real node, what the node answers must be displayable
+            import c20chain
+            cw = os.path.join(work, "chain")
+            os.makedirs(cw, exist_ok=True)
+            try:
+                chain = c20chain.run(binp, cw, lambda *a: None)
+            except Exception as e:  # the chain could not be driven at all
+                chain = dict(violations=[dict(sig="chain-harness-crashed", msg=str(e)[-400:], cmd="")], checks=[], samples=[])
+            seen = set()
+            for v in chain["violations"]:
+                if v["sig"] in seen:
+                    continue
+                seen.add(v["sig"])
+                out["violations"].append(dict(sig=v["sig"], found=True, pid="C20", msg=v.get("msg", "")[:600],
+                                              ops=["# single-node chain (bin/c20chain.py): " + v.get("cmd", "")]))
+            out["evaluations"] += len(chain["checks"])
+            out["nontrivial"] += len(chain["checks"])
         out["coverage"] = dict(binary_checks=checks, binary_build_s=round(time.time() - t0, 1),
-                               commands_in_table=len(cmds))
+                               commands_in_table=len(cmds),
+                               chain_checks=(len(chain["checks"]) if chain else "thorough tier only"),
+                               chain_failed_checks=([c["check"] for c in chain["checks"] if not c["ok"]][:40] if chain else []))
         if not out["samples"]:
             out["samples"].append(dict(kind="no tx command exercised"))
     finally:
